@@ -120,8 +120,8 @@ def oracle_c06(scn, run):
             effects_min += 1
     # request by request, by WHO wrote (the scheduler's observation of the commander's last log after each turn): a success stands for
     # exactly one entry written by that request — or, with an idempotency key, for the entry recorded under the key —; an error for none
-    prod = producers(run)
-    wrote = collections.Counter(prod.values())
+    by_hash = {t["committed"]["hash"]: t["a"] for t in run["trace"] if isinstance(t, dict) and "committed" in t and t["committed"].get("hash")}
+    wrote = collections.Counter(by_hash[l["hash"]] for l in d if l.get("hash") in by_hash)   # per persisted ENTRY (ids may repeat in a broken log)
     for r in run["responses"]:
         q = reqs[r["req"]]
         if q.get("dry"):
